@@ -282,6 +282,21 @@ Definition dr_state (r : gstate * list req * status) : gstate := fst (fst r).
 Definition dr_reqs (r : gstate * list req * status) : list req := snd (fst r).
 Definition dr_status (r : gstate * list req * status) : status := snd r.
 
+(* histories: DRAW statements, with WINDOW switched on or off in between (window_ / _unset_window change the
+   logical coordinate system only: _draw_current, _last_point, scale, angle and colour are not touched) *)
+Inductive stmt := SDraw (cmds : list cmd) | SWindow (on : bool).
+
+Definition set_window (g : gstate) (b : bool) : gstate :=
+  mkG (g_cur g) (g_last g) b (g_scale g) (g_angle g) (g_attr g) (g_text g) (g_nattr g) (g_aspect g) (g_outcomes g).
+
+Definition do_stmt (g : gstate) (s : stmt) : gstate :=
+  match s with
+  | SDraw cmds => fst (fst (draw g cmds))
+  | SWindow b => set_window g b
+  end.
+
+Definition history (g : gstate) (ss : list stmt) : gstate := fold_left do_stmt ss g.
+
 (* point_ with one argument 0 or 1: `current = self._draw_current or self._last_point; current[fn]`
    (the value is then wrapped in a Single: exact for |v| <= 2^24) *)
 Definition point_fn (g : gstate) (fn : Z) : Z := if fn =? 0 then fst (current g) else snd (current g).
@@ -787,6 +802,18 @@ Definition pl_status (r : pst * list move * status) : status := snd r.
 (* the plan state of a Graphics object *)
 Definition pst_of_g (g : gstate) : pst := mkP (g_scale g) (g_attr g) (g_nattr g) (g_angle g) (g_aspect g).
 
+(* the plan of a history: every DRAW statement starts with fresh prefixes from the scale, angle and colour
+   the previous one left (also when that one stopped with an error); WINDOW changes nothing of it *)
+Fixpoint hist_plan (ps : pst) (ss : list stmt) : pst * list move :=
+  match ss with
+  | [] => (ps, [])
+  | SWindow _ :: r => hist_plan ps r
+  | SDraw c :: r =>
+      let pl := plan c fresh ps in
+      let '(ps', ms) := hist_plan (fst (fst pl)) r in
+      (ps', snd (fst pl) ++ ms)
+  end.
+
 (* strings without P *)
 Fixpoint paint_free1 (c : cmd) : bool :=
   match c with
@@ -797,6 +824,9 @@ Fixpoint paint_free1 (c : cmd) : bool :=
   end.
 Fixpoint paint_free (l : list cmd) : bool :=
   match l with [] => true | c :: r => paint_free1 c && paint_free r end.
+
+Definition stmt_paint_free (s : stmt) : bool :=
+  match s with SDraw c => paint_free c | SWindow _ => true end.
 
 (* angles that the model follows: A n always (multiples of 90), TA only 0, 90, 180, 270, 360 *)
 Definition right_angle (a : Z) : bool := (a =? 0) || (a =? 90) || (a =? 180) || (a =? 270) || (a =? 360).
@@ -1015,4 +1045,36 @@ Fixpoint draw_groups (depth : nat) (e : env) (gs : list (gstate * list (list Z))
   | (g, ss) :: r =>
       let '(o, b) := draw_strings depth e g ss in
       if b then o else o ++ draw_groups depth e r
+  end.
+
+(* the same, where a group that is preceded only by WINDOW statements continues from the model's own state
+   (`do_stmt (SWindow b)`), and reports that state first so that it is compared with the observed one *)
+Fixpoint draw_strings_st (depth : nat) (e : env) (g : gstate) (ss : list (list Z)) : list Z * bool * gstate :=
+  match ss with
+  | [] => ([], false, g)
+  | s :: r =>
+      let res := draw_string depth e g s in
+      match dr_status res with
+      | Excluded => (enc_draw res, true, dr_state res)
+      | _ => let '(o, b, g') := draw_strings_st depth e (dr_state res) r in (enc_draw res ++ o, b, g')
+      end
+  end.
+
+Definition with_outcomes (g : gstate) (os : list Z) : gstate :=
+  mkG (g_cur g) (g_last g) (g_window g) (g_scale g) (g_angle g) (g_attr g) (g_text g) (g_nattr g) (g_aspect g) os.
+
+Fixpoint draw_groups_chain (depth : nat) (e : env) (prev : gstate)
+    (gs : list ((gstate + bool * list Z) * list (list Z))) : list Z :=
+  match gs with
+  | [] => []
+  | (start, ss) :: r =>
+      let '(g, hdr) :=
+        match start with
+        | inl g => (g, [])
+        | inr (b, os) =>
+            let g := with_outcomes (do_stmt prev (SWindow b)) os in
+            (g, enc_pt (current g) ++ enc_pt (g_last g) ++ [g_scale g; g_angle g; g_attr g])
+        end in
+      let '(o, b, g') := draw_strings_st depth e g ss in
+      if b then hdr ++ o else hdr ++ o ++ draw_groups_chain depth e g' r
   end.
